@@ -60,6 +60,11 @@ def local_facts():
     dt_uses = sorted(pyast.unparse(n) for n in ast.walk(dt) if isinstance(n, ast.Attribute) and pyast.unparse(n.value) == 'destination')
     only &= dt_uses == ['destination.name', 'destination.parent', 'destination.parent']
     out['destination_only_renamed_onto'] = only
+    # download_stream: the size is that of the file that was opened (fstat of the open descriptor), so a concurrent
+    # replacement (rename) cannot make the announced length and the bytes read belong to different objects
+    ds = [pyast.unparse(x) for x in pyast.find_func(L, 'download_stream').body]
+    out['download_size_of_open_file'] = ds[:2] == ["file = (self.path / name).open('rb')", 'length = os.fstat(file.fileno()).st_size']
+    out['download_reads_whole_file'] = [pyast.unparse(x) for x in pyast.find_func(L, 'download').body] == ['return (self.path / name).read_bytes()']
     # delete
     d = pyast.find_func(L, 'delete')
     out['delete_missing_ok'] = [pyast.unparse(s) for s in d.body] == ['(self.path / name).unlink(missing_ok=True)']
@@ -152,7 +157,7 @@ def c13_facts():
     out = ['From Coq Require Import String NArith List.', 'Import ListNotations.', 'Open Scope string_scope.', '']
     out.append(f'Definition local_tmp_suffix : list N := {_coq_codes(lo["tmp_suffix"])}.')
     out.append(f'Definition local_list_suffix_filter : list N := {_coq_codes(lo["list_suffix_filter"])}.')
-    for k in ('tmp_in_parent', 'mkdir_parents', 'temp_then_replace', 'destination_only_renamed_onto', 'delete_missing_ok', 'exists_is_path_exists',
+    for k in ('tmp_in_parent', 'mkdir_parents', 'temp_then_replace', 'destination_only_renamed_onto', 'download_size_of_open_file', 'download_reads_whole_file', 'delete_missing_ok', 'exists_is_path_exists',
               'list_empty_only_when_missing', 'list_split', 'list_slice_by_scanned_dir', 'list_first_level_filter'):
         out.append(f'Definition local_{k} : bool := {_b(lo[k])}.')
     for k in ('list_loop', 'list_request', 'exists_404_false', 'object_requests'):
